@@ -127,6 +127,10 @@ func (core *JApiCore) processContextBegin(lexeme scanner.Lexeme) *jerr.JApiError
 	if core.currentDirective == nil {
 		return core.noDirectiveError(lexeme)
 	}
+	if core.currentDirective.HasExplicitContext {
+		// "((" would need two closing parentheses but opens only one context
+		return core.japiError(jerr.ContextAlreadyOpened, lexeme.Begin())
+	}
 	core.currentDirective.HasExplicitContext = true
 	return nil
 }
